@@ -23,6 +23,20 @@ def _body(tdef, case):
     return run_first_order(case, tdef, "rev")
 
 
+def coverage_accounting(agg):
+    """Which registered primitives had a vjp node built during this run, and which never did (coverage gap, not a violation)."""
+    from autograd import core
+
+    table = core.primitive_vjps
+    names = sorted({getattr(f, "__name__", repr(f)) for f in table})
+    seen = {k.split(":", 1)[1] for k in agg.prims if k.startswith("vjp:")}
+    owned_elsewhere = {"container_take", "container_untake", "sequence_extend_right", "sequence_extend_left", "make_sequence", "_make_dict",
+                       "add", "mut_add", "scalar_mul", "inner_prod", "covector", "sparse_add", "wrapped", "convolve"}
+    return {"primitives_registered": len(names), "primitives_exercised": len([n for n in names if n in seen]),
+            "primitives_not_exercised": [n for n in names if n not in seen and n not in owned_elsewhere],
+            "primitives_owned_by_other_checks": sorted(n for n in names if n in owned_elsewhere and n not in seen)}
+
+
 def tests():
     out = []
     for name, t in sorted(TEMPLATES.items()):
@@ -35,4 +49,5 @@ PROP = Prop("C01", tests(), RULE, assumptions=[
     "NumPy's primal functions are the reference semantics; derivatives of raw NumPy by Ridders extrapolation (self-tested each run)",
     "generic points only (stratified grid, documented smooth domains); kinks only where the rules handle them explicitly",
     "array rank <= 4, side <= 4, output size <= 40 for the full-Jacobian comparison",
-], selftest=oracle.selftest)
+], selftest=oracle.selftest, finalize=lambda agg: coverage_accounting(agg))
+PROP.record_primitives = True
